@@ -108,6 +108,17 @@ def oracle_conversions(case, ctx):
         chk("to_absolute_second_cutoff", sut(lambda: vals(fh.to_absolute(c2))), [c2 + v for v in s])
     else:
         chk("to_relative_second_cutoff", sut(lambda: vals(fh.to_relative(c2))), [v - c2 for v in s])
+    # a converted horizon is a horizon like any other: converting IT with another cutoff
+    # answers for that cutoff (it does not remember what it was made from), and so do the
+    # in-sample / out-of-sample parts
+    if rel:
+        chk("converted_horizon_with_second_cutoff", sut(lambda: vals(ab.to_relative(c2))), [c + v - c2 for v in s])
+        chk("converted_horizon_indexer_second_cutoff", sut(lambda: vals(ab.to_indexer(c2))), [c + v - c2 - 1 for v in s])
+    else:
+        chk("converted_horizon_with_second_cutoff", sut(lambda: vals(r.to_absolute(c2))), [c2 + v for v in relsteps])
+        chk("converted_horizon_absolute_int_second_cutoff", sut(lambda: vals(r.to_absolute_int(start, c2))), [c2 + v - start for v in relsteps])
+        if oos:
+            chk("converted_part_with_second_cutoff", sut(lambda: vals(r.to_out_of_sample(c).to_absolute(c2))), [c2 + v for v in relsteps if v > 0])
     # the horizon itself is unchanged by all of the above
     chk("mutated", sut(lambda: vals(fh)), s)
     return discs
